@@ -285,6 +285,15 @@ def _do_ref_op(refs, op, names=None, shas=None):
     if k == "del":
         del refs[REF_NAMES[op[1]]]
         return ["bool", True]
+    if k == "lcas":
+        # compare-and-swap built from the public `locked_ref` context manager ("Z": must not exist)
+        from dulwich.refs import locked_ref
+        want = None if op[2] == "Z" else vb(op[2])
+        with locked_ref(refs, REF_NAMES[op[1]]) as lr:
+            if lr.ensure_equals(want):
+                lr.set(vb(op[3]))
+                return ["bool", True]
+            return ["bool", False]
     if k == "symref":
         refs.set_symbolic_ref(REF_NAMES[op[1]], REF_NAMES[op[2]])
         return ["none"]
@@ -770,8 +779,8 @@ def spec_apply(m, op):
         return m, ("val", m.get(op[1]))
     if k == "get":
         return m, ("val", _resolve(m, op[1])[1])
-    if k in ("cas", "set"):
-        name, old, new = (op[1], op[2], op[3]) if k == "cas" else (op[1], None, op[2])
+    if k in ("cas", "set", "lcas"):
+        name, old, new = (op[1], op[2], op[3]) if k != "set" else (op[1], None, op[2])
         real, _ = _resolve(m, name)
         if old is not None and (m.get(real) or "Z") != old:
             return m, ("bool", False)
@@ -1082,13 +1091,16 @@ class _Pool:
 
 def _check_runs(ctx, stream, kind, sc, runs, order, variant="coded"):
     """Correspondence (model vs real, every step) and the direct oracle for the runs of one scenario."""
-    if kind == "mem":
+    nomodel = any(op[0] == "lcas" for ops in sc["actors"] for op in ops)   # locked_ref is not in the Lean model
+    if nomodel:
+        lines = []
+    elif kind == "mem":
         init = sc["init"]["refs"].get("1", [None, None])[0]
         cids = ",".join(str(ops[0][2]) for ops in sc["actors"])
         lines = [f"c08.mem coded {_mv(init)} {cids} {','.join(map(str, r['sched'])) or '-'}" for r in runs]
     else:
         lines = [model_line(sc, r["sched"], order, variant) for r in runs]
-    outs = ctx.driver.batch(lines)
+    outs = ctx.driver.batch(lines) if lines else [None] * len(runs)
     m0 = abs_init(sc["init"])
     if kind == "mem":
         m0 = {k: v for k, v in m0.items() if k == 1}      # a MemoryRepo has just the branch
@@ -1102,7 +1114,7 @@ def _check_runs(ctx, stream, kind, sc, runs, order, variant="coded"):
                 " # " + _mv(r["tip"])
         else:
             il = impl_line(sc, r)
-        agrees = (il == mo)
+        agrees = nomodel or (il == mo)
         ctx.count(stream, (json.dumps(sc, sort_keys=True), tuple(r["sched"])), True, tag)
         if not agrees:
             ctx.disagree(stream, case, mo, il, kind)
@@ -1137,6 +1149,10 @@ def _check_runs(ctx, stream, kind, sc, runs, order, variant="coded"):
                 if kind in ("commit", "mem") and any(op[0] == "commit" for ops in sc["actors"] for op in ops) and agrees \
                         and _two_reads_pattern(sc, r):
                     cls = "worktree-commit-two-reads-lost-commit"
+                elif nomodel:
+                    # locked_ref.__exit__ renames the (empty) lock file over the ref when nothing was written
+                    if any(sc["actors"][a][j][0] == "lcas" and res == ["bool", False] for a, j, _x, _y, res in r["hist"]):
+                        cls = "locked-ref-exit-without-write-truncates-ref"
                 else:
                     cls = classify(sc, r, agrees)
             nfail += 1
@@ -1209,6 +1225,13 @@ def _refs_jobs(ctx, thorough):
                # packed-refs.lock busy (another delete) while remove_if_equals is half way
                {"init": _init(("2", "1"), (None, "3")), "actors": [[["rm", 1, "2"]], [["del", 2]]]}):
         jobs.append(("triples.symref", "refs", sc, {"dfs": 2 if len(sc["actors"]) == 2 else 1, "max": 800}))
+    # 3c. compare-and-swap through the public locked_ref context manager (direct oracle only: not in the model)
+    for iname in ("absent", "loose", "packed", "both"):
+        init = INITS[iname]
+        cur = _cur(init)
+        for acts in ([[["lcas", 1, "9", "5"]]], [[["lcas", 1, cur, "5"]], [["cas", 1, cur, "6"]]],
+                     [[["lcas", 1, cur, "5"]], [["lcas", 1, cur, "6"]]], [[["lcas", 0, cur, "5"]], [["read", 1]]]):
+            jobs.append(("lockedref", "refs", {"init": init, "actors": acts}, {"dfs": 2, "max": 600}))
     # 4. triples: random op triples, one pre-emption exhaustively + random schedules beyond
     inits = [i for k, i in INITS.items() if k != "absent-pf"]
     for _ in range(ctx.budget(10)):
